@@ -341,7 +341,7 @@ func genBlock(pr *histProfile) func(t *rapid.T) hBlock {
 		if rapid.IntRange(0, 9).Draw(t, "nano") == 0 {
 			b.DTNano = rapid.SampledFrom([]int64{-1, 1, 999999999}).Draw(t, "dtnano")
 		}
-		b.Proposer = rapid.IntRange(-2, 7).Draw(t, "proposer")
+		b.Proposer = rapid.IntRange(-3, 7).Draw(t, "proposer")
 		if pr.Missed > 0 && rapid.IntRange(0, pr.Missed-1).Draw(t, "hasmissed") == 0 {
 			b.Missed = rapid.SliceOfN(rapid.IntRange(0, 7), 1, 4).Draw(t, "missed")
 		}
